@@ -89,4 +89,19 @@ PROPS = {
         level_note="Trusted: pyvc, SMT solvers. Ground rows are exhaustive evaluation on the real class hierarchy.",
         explanation="to_answer header contract + frame; pairing exhaustive.",
     ),
+    "C16": dict(
+        specs=["node_model", "helpers"],
+        ground=[ground.c16_atomicity, ground.c16_format],
+        replay=replay.generic, ground_replay=replay.c16_schedule,
+        trusted_base=["with <Lock> is mutual exclusion; a single attribute load/store is atomic (S7)"],
+        assumptions=COMMON_ASSUME + ["S7 GIL: single attribute loads/stores of immutable objects are atomic",
+                                     "callers other than the generator methods do not write _sequence (AST-checked for the package)"],
+        level_text="Deductive proof of the sequential generator contracts (successor function, never zero, wrap MAX->1, "
+                   "start value carries time mod 2^12 in the high 12 bits) and of the closed-form/distinctness lemmas for ANY "
+                   "number of draws below the counter space; atomicity obligation AT1 (read-modify-write under one lock) on the "
+                   "AST, replayed as a concrete line schedule when it fails; session-id format at the counter boundaries.",
+        level_note="Interleavings are covered by lock discipline (Owicki-Gries restricted to lock-protected regions), not by "
+                   "enumeration; S7 assumed.",
+        explanation="sequential contracts + lemmas by SMT; AT1 structural; format ground.",
+    ),
 }
